@@ -3,17 +3,17 @@ import os, sys
 sys.path.insert(0, os.path.dirname(__file__))
 from _seed import seed_uw
 SRC = "C20_calc.c"
-COMMON = dict(src=SRC, env=["vp_alloc.c", "vp_libc.c"], units=["hwloc/bitmap.c", "hwloc/traversal.c"], unwind=14, checks="safety", object_bits=11, timeout=1700,
-              unwindset=seed_uw(**{"strcmp.0": 8, "strncmp.0": 8, "strcasecmp.0": 8, "hwloc__type_match.0": 24, "strchr.0": 34, "strcspn.0": 34, "strcspn.1": 6, "vp_strto.0": 4, "vp_strto.1": 8, "strncasecmp.0": 8, "vsnprintf.0": 34}),
-              stubs=["hwloc_bitmap_asprintf (diagnostics inside hwloc_calc_append_set): empty", "fprintf/printf diagnostics: verbose = -1", "seed environment stubs of vp_seed.h", "strtol/strcspn/snprintf: env/vp_libc.c models"],
-              assumptions=["allocation never fails", "seed S2 (PU os_index 0,1,2,5; 2 cores; 2 packages; NUMA0 in package 0 and a CPU-less NUMA2 attached to the machine)"])
+COMMON = dict(src=SRC, env=["vp_alloc.c", "vp_libc.c"], units=["hwloc/bitmap.c", "hwloc/traversal.c", "hwloc/topology.c"], unwind=8, checks="safety", object_bits=13, timeout=1700,
+              unwindset=dict({"vp_mini_build_at.%d" % k: 24 for k in range(12)}, **{"strlen.0": 24, "strcpy.0": 24, "level_table.0": 6, "strcmp.0": 8, "strncmp.0": 8, "strcasecmp.0": 8, "hwloc__type_match.0": 24, "strchr.0": 34, "strcspn.0": 34, "strcspn.1": 6, "vp_strto.0": 4, "vp_strto.1": 8, "strncasecmp.0": 8, "vsnprintf.0": 34}),
+              stubs=["hwloc_bitmap_asprintf (diagnostics inside hwloc_calc_append_set): empty", "fprintf/printf diagnostics: verbose = -1", "topology: the hand-linked 9-object topology of vp_mini.h (accepted by hwloc_topology_check natively)", "strtol/strcspn/snprintf: env/vp_libc.c models"],
+              assumptions=["allocation never fails", "topology: Machine, 2 Packages, PUs with os_index 0,1,2,5, one NUMA node per package"])
 EVAL = ["hwloc_calc_process_location_as_set", "hwloc_calc_process_location", "hwloc_calc_append_object_range", "hwloc_calc_parse_range", "hwloc_calc_parse_level", "hwloc_calc_parse_level_size", "hwloc_calc_get_nbobjs_inside_sets_by_depth", "hwloc_calc_get_obj_inside_sets_by_depth", "hwloc_calc_append_set", "hwloc_calc_process_location_set_cb", "hwloc_type_sscanf"]
-TN = ["pu", "core", "pack", "numa"]
+TN = ["pu", "pack", "numa"]
 TP = ["index", "range", "openrange", "wraprange", "keyword", "nested_pu", "nested_numa", "all_root"]
 HARNESSES = [dict(COMMON, name="range_bytes", entry="h_range", encoded=["hwloc_calc_parse_range"], checks="safety+", tiers={"quick": {"defines": {"L": 4}}, "thorough": {"defines": {"L": 6}}}, unwind=10,
                   unwindset={"strchr.0": 10, "strlen.0": 10, "strncmp.0": 6, "vp_strto.0": 8, "vp_strto.1": 8}, units=[], bounds="every NUL-terminated string of L arbitrary bytes (4 quick, 6 thorough)")]
-QUICK = {(0, 0, 0), (0, 1, 0), (0, 2, 0), (0, 3, 0), (0, 4, 0), (2, 0, 1), (3, 4, 1), (3, 2, 0)}
-for ty in range(4):
+QUICK = {(0, 0, 0), (0, 1, 0), (0, 2, 0), (0, 3, 0), (0, 4, 0), (1, 0, 1), (2, 4, 1), (2, 2, 0)}
+for ty in range(3):
     for tp in range(5):
         for op in (0, 1):
             tiers = {"thorough": {}}
